@@ -83,3 +83,37 @@ from native.systarget import SysTarget  # noqa: E402
 
 TARGETS["codebasin.preprocessor:IncludeNode.evaluate_for_platform"] = SysTarget(
     "includes", ("computed", "forced"), quick_n=400, thorough_n=6000)
+
+
+# ---- recorded findings reported by defect hunting (fixed inputs; oracle gcc -E quoted in the descriptions) -------------
+import json as _json                     # noqa: E402
+import os as _os                         # noqa: E402
+from native import recorded as _R      # noqa: E402
+
+
+def _x_isystem_order():
+    from codebasin import config
+    with _R.tree({"main.c": "#include <h.h>\nint m;\n", "inc/h.h": "int from_inc;\n", "sys/h.h": "int from_sys;\n"}) as root:
+        c = [x for x in config.ArgumentParser("gcc").parse_args(["-isystem", "sys", "-I", "inc", "-c", "main.c"]) if x.pass_name == "default"][0]
+        e = {"file": _os.path.join(root, "main.c"), "defines": c.defines,
+             "include_paths": [_os.path.join(root, d) for d in c.include_paths], "include_files": []}
+        used = _R.used_lines(root, [e])
+    return None if used.get("inc/h.h") == [1] and not used.get("sys/h.h") else (
+        "inc/h.h is read (gcc searches every -I directory before the -isystem directories)", used)
+
+
+def _x_forced_include_cwd():
+    from codebasin import config
+    with _R.tree({"src/main.c": "#ifdef PRE\nint yes;\n#else\nint no;\n#endif\n", "pre.h": "#define PRE 1\n"}) as root:
+        db = _os.path.join(root, "db.json")
+        with open(db, "w") as fh:
+            _json.dump([{"directory": root, "file": "src/main.c", "arguments": ["gcc", "-include", "pre.h", "-c", "src/main.c"]}], fh)
+        used = _R.used_lines(root, config.load_database(db, root))
+    return None if used.get("src/main.c") == [1, 2, 3, 5] or 2 in used.get("src/main.c", []) else (
+        "line 2 (`int yes;`) is used: gcc looks a -include file up in its working directory first, here <root>/pre.h", used)
+
+
+TARGETS["codebasin.platform:Platform.find_include_file#recorded-findings"] = _R.Exhibits([
+    ("includes:isystem-directories-searched-in-command-line-position", "gcc -isystem sys -I inc -c main.c ; #include <h.h>", _x_isystem_order),
+    ("includes:forced-include-looked-up-beside-the-source-file", "directory=<root>: gcc -include pre.h -c src/main.c", _x_forced_include_cwd),
+])
